@@ -210,7 +210,7 @@ fn collect_msgs<'a>(ops: &'a [Op], out: &mut BTreeMap<u64, &'a Msg>) {
             }
             Op::Cancel { op, .. } => collect_msgs(std::slice::from_ref(op), out),
             Op::Fork { ops, .. } => collect_msgs(ops, out),
-            Op::Join(ops) => collect_msgs(ops, out),
+            Op::Join(ops) | Op::Race(ops) => collect_msgs(ops, out),
             _ => {}
         }
     }
@@ -222,7 +222,7 @@ pub fn ops_contain(ops: &[Op], pred: &dyn Fn(&Op) -> bool) -> bool {
             || match o {
                 Op::Cancel { op, .. } => ops_contain(std::slice::from_ref(op), pred),
                 Op::Fork { ops, .. } => ops_contain(ops, pred),
-                Op::Join(ops) => ops_contain(ops, pred),
+                Op::Join(ops) | Op::Race(ops) => ops_contain(ops, pred),
                 _ => false,
             }
     })
@@ -450,7 +450,7 @@ impl<'a> History<'a> {
                             return Some(x);
                         }
                     }
-                    Op::Join(ops) => {
+                    Op::Join(ops) | Op::Race(ops) => {
                         if let Some(x) = find_fork(ops, id) {
                             return Some(x);
                         }
@@ -493,7 +493,7 @@ impl<'a> History<'a> {
             // sub-operation of a Join step
             let (outer, inner) = ((k / 1000 - 1) as usize, (k % 1000) as usize);
             return match script.and_then(|s| s.get(outer)).map(unwrap_cancel) {
-                Some(Op::Join(subs)) => subs.get(inner).map(unwrap_cancel),
+                Some(Op::Join(subs)) | Some(Op::Race(subs)) => subs.get(inner).map(unwrap_cancel),
                 _ => None,
             };
         }
